@@ -292,7 +292,7 @@ func cmdCheck(args []string) int {
 		}
 		report(o, st)
 	}
-	// bounded stand-ins (labelled bounded, never counted as proved) for functions kept trusted by the contracts
+	// bounded stand-ins (labelled bounded, never counted as proved) for what the contracts leave trusted or assumed
 	var bounded []map[string]interface{}
 	if (*prop == "C05" || *prop == "C15") && *only == "" {
 		b := runBoundedRecord(*repo, *vdir)
@@ -346,8 +346,8 @@ func cmdCheck(args []string) int {
 	var trusted []string
 	for k := range e.usedExt {
 		trusted = append(trusted, "assumed contract: "+k)
-		if strings.Contains(k, "TRUSTED") && strings.HasSuffix(k, "avro.buildRecordCodec") {
-			trusted = append(trusted, "SCOPE RESTRICTION of the trusted buildRecordCodec contract: record schemas with pairwise distinct field names (as the Avro specification requires). With a repeated name two schema fields decode into the same struct field, so the 'present fields occupy disjoint ranges' and 'destination still zero' parts of the contract do not hold; the real code's behaviour there (second value merged into / overwriting the first, nothing outside the field touched) is exercised only by the bounded stand-in.")
+		if strings.HasSuffix(k, "avro.buildRecordCodec") {
+			trusted = append(trusted, "SCOPE RESTRICTION of the proof of buildRecordCodec (its postcondition is proved under the hypothesis distinctNames(schema) and stays an [assume] clause otherwise): record schemas with pairwise distinct field names (as the Avro specification requires). With a repeated name two schema fields decode into the same struct field, so the 'present fields occupy disjoint ranges' and 'destination still zero' parts of the contract do not hold; the real code's behaviour there (second value merged into / overwriting the first, nothing outside the field touched) is exercised only by the bounded stand-in.")
 		}
 	}
 	for _, g := range e.specs.Globals {
@@ -620,7 +620,7 @@ func parseModel(s string) map[string]string {
 // against the real code of the working tree (go test -overlay; nothing is written into the repository).
 func runBoundedRecord(repo, vdir string) map[string]interface{} {
 	res := map[string]interface{}{
-		"functions": []string{"buildRecordCodec", "schemaForStruct"},
+		"functions": []string{"schemaForStruct (trusted by the proofs)", "buildRecordCodec (verified for record schemas with pairwise distinct field names; only the duplicate-name case rests on this stand-in)"},
 		"label":     "BOUNDED (not a proof)",
 		"bound":     "every struct type with 0..3 fields over 14 field kinds (incl. a type whose registered schema is already a union) and plain/omitempty/excluded tags (reflect.StructOf), its generated schema, its record codec, sampled projection pairs, and for each kind one record schema that names the field twice (decode between guard arrays)",
 		"checks":    "schema fields = exported non-excluded Go fields in declaration order under their JSON names with the documented type mapping, deterministic; codec fields carry the offset of the struct field of that name, write at most the field's size, stay inside the struct and do not overlap; absent fields are skip-only",
